@@ -748,6 +748,8 @@ def run_shape_entries(env, res, rng, hist):
         N = sc['N']
         optss = [(True, False)] if sc['L'] is not None and rng.random() < 0.7 else [(True, False), (False, True)]
         for entry in R_ENTRIES:
+            if entry in ('iface', 'host-select') and env['tier'] == 'quick' and rng.random() < 0.6:
+                continue
             for (t2l, s2l) in optss:
                 c10.SRC.clear()
                 try:
@@ -1112,7 +1114,11 @@ def run(env, res):
                 'N in {0,1,2,5,50} x element kind {ints, empty lists, empty iterators} x lambda profile; non-trivial = the source was '
                 'pulled at least once. E: expressions over src(). R: result shapes with a collection of N-1/N/N+1 elements at depth '
                 '0..3 + random nested values. L: limit_iterable against the model. Q: repetition with quotas at the modelled '
-                'boundaries and growth chains. distinct = distinct case descriptions')
+                'boundaries and growth chains. distinct = distinct case descriptions. ENTRY POINTS: the sweep cases also '
+                'through the attribute-call stubs of YaqlInterface (stand-alone and from inside a host function with the hidden '
+                'yaql_interface parameter), the expressions also through YaqlInterface(ctx, engine)(expr), the shapes (R2) '
+                'through yi("$1", v), yi.ident(v), yi.on(v).same(), yi.on([0]).select(<lambda returning v>) stand-alone and '
+                'inside a host function')
     if env['replay']:
         rp = json.load(open(env['replay']))
         c = rp['case']
@@ -1193,8 +1199,8 @@ def run(env, res):
     for c in cases:
         deep = c['target'] is None or c['elem'] == 'esrc'
         nested = c['wrap'] == 'in_list'
-        for entry, pr in (('stub', 0.1), ('host', 0.05)):
-            if tier != 'quick' or rng.random() < (10 * pr if deep else 2 * pr if nested else pr):
+        for entry, pr in (('stub', 0.06), ('host', 0.03)):
+            if rng.random() < ((1.0 if entry == 'stub' else 0.3) if deep else 2 * pr if nested else pr) * (1 if tier == 'quick' else 3):
                 extra.append(dict(c, entry=entry))
     cases += extra
     for e, elem, known in EXPRS:
@@ -1298,7 +1304,10 @@ def run(env, res):
 LEVEL_TEXT = ('Lean 4 theorems over a model of utils.limit_iterable (counting generator over an arbitrary finite or endless '
               'source: limit_pulls - at most N items obtained, at most N+1 pulled, for every source, N and consumer; '
               'limit_endless_raises; limit_prefix; limit_sized), of convert_output_data with the #iter limiter '
-              '(finalize_bounded / finalize_refuses, via C10.convOut_spec), of limit_memory_usage and the pre-allocation '
+              '(finalize_bounded / finalize_refuses, via C10.convOut_spec; C08Entry over Model/Entry.lean: every public '
+              'entry point - evaluate, YaqlInterface.__call__, the attribute-call stubs with and without on(receiver) - hands '
+              'over what the whole finaliser let through: entry_bounded, entry_refuses, entry_call_bounded, entries_agree; '
+              'limiting the top level only is not enough: top_level_limit_not_enough), of limit_memory_usage and the pre-allocation '
               'estimates of list_by_int / string_by_int over a size model whose constants are regenerated from the running '
               'CPython (repeat_estimate_safe, repeat_estimate_safe_str; the pre-fix estimate shown unsafe by a witness), '
               'memorize_bounded, and quota_flow for first-order call trees. Generated-table theorems re-proved on every run '
